@@ -162,6 +162,17 @@ def run(harness_names, prop, tier, per_harness_timeout=None):
     return res
 
 
+def _fail_lines(o):
+    ls = o.split('\n')
+    keep = []
+    for k, l in enumerate(ls):
+        if re.search(r'panicked|assert|FAILED|error', l):
+            keep.append(l)
+            if 'panicked' in l and k + 1 < len(ls):
+                keep.append(ls[k + 1])      # the assertion message (the failing case) is on the next line
+    return '\n'.join(keep)[-1500:]
+
+
 def run_exec(names):
     """bounded stand-ins by exhaustive execution (never counted as proved): a #[test] per entry calls the
     enumerating function of the harness module on the real code in a scratch copy"""
@@ -180,7 +191,7 @@ def run_exec(names):
             m = re.search(r'VERIF_EXEC_COUNT (\d+)', o)
             out.append({'name': n, 'status': 'SUCCESSFUL' if rc == 0 and m else 'FAILED', 'cases': int(m.group(1)) if m else 0, 'bounded': h['bounded'], 'what': h['what'],
                         'target': ', '.join(h['targets']), 'wall_s': round(wall, 1),
-                        'output_tail': '' if rc == 0 else '\n'.join(l for l in o.split('\n') if re.search(r'panicked|assert|FAILED|error', l))[-1500:]})
+                        'output_tail': '' if rc == 0 else _fail_lines(o)})
     finally:
         shutil.rmtree(scratch, ignore_errors=True)
     return out
